@@ -2582,6 +2582,10 @@ package otto
 //@   stable call.ArgumentList
 //@   abstract_callee (Value).call, (Value).bool, getValueOfArrayIndex
 //@   at_call (Value).call : arg0 == iterator && arg2 == callThis && len(arg3) == 3 && numIdx(arg3[1], index) && is(arg3[2], Value) && arg3[2].(Value) == this
+//@   calls (*object).hasProperty(_, _) as h whenret false
+//@   invariant@1 0 <= index && index < length && len(values) == int(length) && fresh(values)
+//@   invariant@1 index > 0 ==> called(h) && (!h ==> values[index-1].kind == valueEmpty)
+//@   at_call (*runtime).newArrayOf : len(arg1) == int(length) && (length > 0 ==> called(h) && (!h ==> arg1[len(arg1)-1].kind == valueEmpty))
 //@ func builtinArrayFilter
 //@   props C08
 //@   nosafety
@@ -2965,7 +2969,7 @@ package otto
 // [[Class]] is "Object".
 //@ func (*runtime).newObject
 //@   props C07 C14
-//@   requires rt != nil
+//@   nosafety
 //@   nothrow
 //@   pure
 //@   ensures result != nil && fresh(result) && result.class == "Object" && result.prototype == rt.global.ObjectPrototype && result.extensible && result.objectClass == classObject && (forall k string :: !has(result.property, k))
@@ -2996,13 +3000,11 @@ package otto
 //@ func (*runtime).newArrayObject
 //@   props C08 C14
 //@   nosafety
-//@   requires rt != nil
 //@   at_call (*object).defineProperty : arg0.class == "Array" && arg1 == "length" && arg3 == 0o100 && !arg4 && arg2.kind == valueNumber && is(arg2.value, uint32) && arg2.value.(uint32) == length
 //@   ensures result != nil && result.objectClass == classArray
 //@ func (*runtime).newArray
 //@   props C08 C14
 //@   nosafety
-//@   requires rt != nil
 //@   calls (*runtime).newArrayObject(_, _) as o
 //@   at_call (*runtime).newArrayObject : arg0 == rt && arg1 == length
 //@   ensures called(o) && result == o && result != nil && result.prototype == rt.global.ArrayPrototype
@@ -3225,7 +3227,8 @@ package otto
 //@   calls (*object).get(_, "length") as l0
 //@   calls (*object).get(_, _) as g
 //@   calls (*object).hasProperty(_, _) as h whenret false
-//@   invariant@1 0 <= start && start <= length && 0 <= deleteCount && deleteCount <= length - start
+//@   invariant@1 0 <= start && start <= length && 0 <= deleteCount && deleteCount <= length - start && len(valueArray) == int(deleteCount) && fresh(valueArray) && 0 <= index && index < deleteCount
+//@   invariant@1 index > 0 ==> called(h) && (!h ==> valueArray[index-1].kind == valueEmpty)
 //@   invariant@2 start <= index && index <= stop && stop == length - deleteCount
 //@   invariant@3 stop + itemCount <= index && index <= length && stop == length - deleteCount
 //@   invariant@4 start <= index && index <= length - deleteCount
@@ -3279,7 +3282,6 @@ package otto
 //@ func (*runtime).newArrayOf
 //@   props C08
 //@   nosafety
-//@   requires rt != nil
 //@   stable valueArray
 //@   calls strconv.FormatInt(_, _) as nm whenret false
 //@   at_call (*runtime).newArray : arg1 == uint32(len(valueArray))
@@ -3296,11 +3298,12 @@ package otto
 //@   requires wfCall(call) && argsOK(call.ArgumentList) && call.runtime != nil
 //@   stable call.ArgumentList
 //@   calls (*object).hasProperty(_, _) as h whenret false
-//@   invariant@1 0 <= index && index < sliceLength && sliceLength == end - start
+//@   invariant@1 0 <= index && index < sliceLength && sliceLength == end - start && len(sliceValueArray) == int(sliceLength) && fresh(sliceValueArray)
+//@   invariant@1 index > 0 ==> called(h) && (!h ==> sliceValueArray[index-1].kind == valueEmpty)
 //@   at_call (*object).hasProperty : arg0 == thisObject && 0 <= index && index < end - start && arg1 == arrayIndexToString(index + start)
 //@   at_call (*object).get @1 : arg0 == thisObject && called(h) && h && arg1 == arrayIndexToString(index + start)
 //@   at_call (*runtime).newArray : arg1 == 0 && start >= end
-//@   at_call (*runtime).newArrayOf : start < end && len(arg1) == int(end - start)
+//@   at_call (*runtime).newArrayOf : start < end && len(arg1) == int(end - start) && called(h) && (!h ==> arg1[len(arg1)-1].kind == valueEmpty)
 
 // 15.4.4.5 join: elements 0 .. len-1 are read in order; undefined and null contribute the
 // empty string; the default separator is ",".
@@ -3404,3 +3407,304 @@ package otto
 //@   calls (*object).hasOwnProperty(_, _) as r
 //@   at_call (*object).hasOwnProperty : arg0 == thisObject && arg1 == propertyName
 //@   ensures called(r) && result.kind == valueBoolean && is(result.value, bool) && result.value.(bool) == r
+
+// ---------------------------------------------------------------------------
+// builtin_error.go, type_error.go: the Error constructors (15.11.1-2, 15.11.6-7) (C19)
+// ---------------------------------------------------------------------------
+
+// An error object has [[Class]] "Error", carries the error record whose name is the class
+// the constructor stands for, and gets a message property only when message is not undefined.
+//@ func (*runtime).newErrorObject
+//@   props C19
+//@   nosafety
+//@   requires rt != nil && jsValue(message) && stackFramesToPop >= 0
+//@   calls newError(_, _, _, _) as e
+//@   at_call newError : arg0 == rt && arg1 == name && arg2 == stackFramesToPop
+//@   at_call (*object).defineProperty : message.kind != valueUndefined && arg0 == obj && (message.kind != valueObject ==> arg0.class == "Error") && arg1 == "message" && arg3 == 0o111 && !arg4
+//@   at_call (*object).defineOwnProperty : arg0 == obj && arg1 == "stack" && called(e)
+//@   at_call (*runtime).newNativeFunction : called(e) && is(obj.value, ottoError) && obj.value.(ottoError).name == name && (message.kind == valueUndefined ==> obj.class == "Error")
+//@   ensures result != nil
+//@ func (*runtime).newEvalError
+//@   props C19
+//@   nosafety
+//@   requires rt != nil && jsValue(message)
+//@   calls (*runtime).newErrorObject(_, _, _, _) as o
+//@   at_call (*runtime).newErrorObject : arg0 == rt && arg1 == "EvalError" && arg2 == message && arg3 == 0
+//@   ensures called(o) && result == o && result.prototype == rt.global.EvalErrorPrototype
+//@ func builtinEvalError
+//@   props C19
+//@   requires wfCall(call) && argOK(call, 0) && call.runtime != nil
+//@   stable call.ArgumentList
+//@   calls (*runtime).newEvalError(_, _) as o
+//@   at_call (*runtime).newEvalError : arg0 == call.runtime && arg1 == argOf(call, 0)
+//@   ensures called(o) && result.kind == valueObject && is(result.value, *object) && result.value.(*object) == o
+//@ func builtinNewEvalError
+//@   props C19
+//@   requires obj != nil && obj.runtime != nil && slotOK(argumentList, 0)
+//@   stable argumentList
+//@   calls (*runtime).newEvalError(_, _) as o
+//@   at_call (*runtime).newEvalError : arg0 == obj.runtime && (len(argumentList) > 0 && argumentList[0].kind != valueEmpty ==> arg1 == argumentList[0]) && (len(argumentList) == 0 ==> arg1 == Value{})
+//@   ensures called(o) && result.kind == valueObject && is(result.value, *object) && result.value.(*object) == o
+//@ func (*runtime).newTypeError
+//@   props C19
+//@   nosafety
+//@   requires rt != nil && jsValue(message)
+//@   calls (*runtime).newErrorObject(_, _, _, _) as o
+//@   at_call (*runtime).newErrorObject : arg0 == rt && arg1 == "TypeError" && arg2 == message && arg3 == 0
+//@   ensures called(o) && result == o && result.prototype == rt.global.TypeErrorPrototype
+//@ func builtinTypeError
+//@   props C19
+//@   requires wfCall(call) && argOK(call, 0) && call.runtime != nil
+//@   stable call.ArgumentList
+//@   calls (*runtime).newTypeError(_, _) as o
+//@   at_call (*runtime).newTypeError : arg0 == call.runtime && arg1 == argOf(call, 0)
+//@   ensures called(o) && result.kind == valueObject && is(result.value, *object) && result.value.(*object) == o
+//@ func builtinNewTypeError
+//@   props C19
+//@   requires obj != nil && obj.runtime != nil && slotOK(argumentList, 0)
+//@   stable argumentList
+//@   calls (*runtime).newTypeError(_, _) as o
+//@   at_call (*runtime).newTypeError : arg0 == obj.runtime && (len(argumentList) > 0 && argumentList[0].kind != valueEmpty ==> arg1 == argumentList[0]) && (len(argumentList) == 0 ==> arg1 == Value{})
+//@   ensures called(o) && result.kind == valueObject && is(result.value, *object) && result.value.(*object) == o
+//@ func (*runtime).newRangeError
+//@   props C19
+//@   nosafety
+//@   requires rt != nil && jsValue(message)
+//@   calls (*runtime).newErrorObject(_, _, _, _) as o
+//@   at_call (*runtime).newErrorObject : arg0 == rt && arg1 == "RangeError" && arg2 == message && arg3 == 0
+//@   ensures called(o) && result == o && result.prototype == rt.global.RangeErrorPrototype
+//@ func builtinRangeError
+//@   props C19
+//@   requires wfCall(call) && argOK(call, 0) && call.runtime != nil
+//@   stable call.ArgumentList
+//@   calls (*runtime).newRangeError(_, _) as o
+//@   at_call (*runtime).newRangeError : arg0 == call.runtime && arg1 == argOf(call, 0)
+//@   ensures called(o) && result.kind == valueObject && is(result.value, *object) && result.value.(*object) == o
+//@ func builtinNewRangeError
+//@   props C19
+//@   requires obj != nil && obj.runtime != nil && slotOK(argumentList, 0)
+//@   stable argumentList
+//@   calls (*runtime).newRangeError(_, _) as o
+//@   at_call (*runtime).newRangeError : arg0 == obj.runtime && (len(argumentList) > 0 && argumentList[0].kind != valueEmpty ==> arg1 == argumentList[0]) && (len(argumentList) == 0 ==> arg1 == Value{})
+//@   ensures called(o) && result.kind == valueObject && is(result.value, *object) && result.value.(*object) == o
+//@ func (*runtime).newReferenceError
+//@   props C19
+//@   nosafety
+//@   requires rt != nil && jsValue(message)
+//@   calls (*runtime).newErrorObject(_, _, _, _) as o
+//@   at_call (*runtime).newErrorObject : arg0 == rt && arg1 == "ReferenceError" && arg2 == message && arg3 == 0
+//@   ensures called(o) && result == o && result.prototype == rt.global.ReferenceErrorPrototype
+//@ func builtinReferenceError
+//@   props C19
+//@   requires wfCall(call) && argOK(call, 0) && call.runtime != nil
+//@   stable call.ArgumentList
+//@   calls (*runtime).newReferenceError(_, _) as o
+//@   at_call (*runtime).newReferenceError : arg0 == call.runtime && arg1 == argOf(call, 0)
+//@   ensures called(o) && result.kind == valueObject && is(result.value, *object) && result.value.(*object) == o
+//@ func builtinNewReferenceError
+//@   props C19
+//@   requires obj != nil && obj.runtime != nil && slotOK(argumentList, 0)
+//@   stable argumentList
+//@   calls (*runtime).newReferenceError(_, _) as o
+//@   at_call (*runtime).newReferenceError : arg0 == obj.runtime && (len(argumentList) > 0 && argumentList[0].kind != valueEmpty ==> arg1 == argumentList[0]) && (len(argumentList) == 0 ==> arg1 == Value{})
+//@   ensures called(o) && result.kind == valueObject && is(result.value, *object) && result.value.(*object) == o
+//@ func (*runtime).newSyntaxError
+//@   props C19
+//@   nosafety
+//@   requires rt != nil && jsValue(message)
+//@   calls (*runtime).newErrorObject(_, _, _, _) as o
+//@   at_call (*runtime).newErrorObject : arg0 == rt && arg1 == "SyntaxError" && arg2 == message && arg3 == 0
+//@   ensures called(o) && result == o && result.prototype == rt.global.SyntaxErrorPrototype
+//@ func builtinSyntaxError
+//@   props C19
+//@   requires wfCall(call) && argOK(call, 0) && call.runtime != nil
+//@   stable call.ArgumentList
+//@   calls (*runtime).newSyntaxError(_, _) as o
+//@   at_call (*runtime).newSyntaxError : arg0 == call.runtime && arg1 == argOf(call, 0)
+//@   ensures called(o) && result.kind == valueObject && is(result.value, *object) && result.value.(*object) == o
+//@ func builtinNewSyntaxError
+//@   props C19
+//@   requires obj != nil && obj.runtime != nil && slotOK(argumentList, 0)
+//@   stable argumentList
+//@   calls (*runtime).newSyntaxError(_, _) as o
+//@   at_call (*runtime).newSyntaxError : arg0 == obj.runtime && (len(argumentList) > 0 && argumentList[0].kind != valueEmpty ==> arg1 == argumentList[0]) && (len(argumentList) == 0 ==> arg1 == Value{})
+//@   ensures called(o) && result.kind == valueObject && is(result.value, *object) && result.value.(*object) == o
+//@ func (*runtime).newURIError
+//@   props C19
+//@   nosafety
+//@   requires rt != nil && jsValue(message)
+//@   calls (*runtime).newErrorObject(_, _, _, _) as o
+//@   at_call (*runtime).newErrorObject : arg0 == rt && arg1 == "URIError" && arg2 == message && arg3 == 0
+//@   ensures called(o) && result == o && result.prototype == rt.global.URIErrorPrototype
+//@ func builtinURIError
+//@   props C19
+//@   requires wfCall(call) && argOK(call, 0) && call.runtime != nil
+//@   stable call.ArgumentList
+//@   calls (*runtime).newURIError(_, _) as o
+//@   at_call (*runtime).newURIError : arg0 == call.runtime && arg1 == argOf(call, 0)
+//@   ensures called(o) && result.kind == valueObject && is(result.value, *object) && result.value.(*object) == o
+//@ func builtinNewURIError
+//@   props C19
+//@   requires obj != nil && obj.runtime != nil && slotOK(argumentList, 0)
+//@   stable argumentList
+//@   calls (*runtime).newURIError(_, _) as o
+//@   at_call (*runtime).newURIError : arg0 == obj.runtime && (len(argumentList) > 0 && argumentList[0].kind != valueEmpty ==> arg1 == argumentList[0]) && (len(argumentList) == 0 ==> arg1 == Value{})
+//@   ensures called(o) && result.kind == valueObject && is(result.value, *object) && result.value.(*object) == o
+//@ func builtinError
+//@   props C19
+//@   requires wfCall(call) && argOK(call, 0) && call.runtime != nil
+//@   stable call.ArgumentList
+//@   calls (*runtime).newError(_, _, _, _) as o
+//@   at_call (*runtime).newError : arg0 == call.runtime && arg1 == "Error" && arg2 == argOf(call, 0) && arg3 == 1
+//@   ensures called(o) && result.kind == valueObject && is(result.value, *object) && result.value.(*object) == o
+//@ func builtinNewError
+//@   props C19
+//@   requires obj != nil && obj.runtime != nil && slotOK(argumentList, 0)
+//@   stable argumentList
+//@   calls (*runtime).newError(_, _, _, _) as o
+//@   at_call (*runtime).newError : arg0 == obj.runtime && arg1 == "Error" && arg3 == 0 && (len(argumentList) > 0 && argumentList[0].kind != valueEmpty ==> arg2 == argumentList[0])
+//@   ensures called(o) && result.kind == valueObject && is(result.value, *object) && result.value.(*object) == o
+
+// ---------------------------------------------------------------------------
+// type_regexp.go, builtin_regexp.go, global.go: RegExp construction (15.10.4, 15.10.7) (C10, C19)
+// ---------------------------------------------------------------------------
+
+// 15.10.4.1: a malformed pattern or flag string is a SyntaxError (never a TypeError);
+// 15.10.7: source, global, ignoreCase, multiline are {writable, enumerable, configurable:
+// false}; lastIndex is {writable: true, enumerable: false, configurable: false} and starts at 0.
+//@ func (*runtime).newRegExpObject
+//@   props C10 C19
+//@   nosafety
+//@   requires rt != nil
+//@   nocall (*runtime).panicTypeError(_, _) when true
+//@   at_call parser.TransformRegExp : arg0 == pattern
+//@   at_call (*object).defineProperty : arg0 == o && !arg4 && (arg1 == "global" || arg1 == "ignoreCase" || arg1 == "multiline" || arg1 == "lastIndex" || arg1 == "source")
+//@   at_call (*object).defineProperty : arg1 == "lastIndex" ==> arg3 == 0o100 && arg2.kind == valueNumber && is(arg2.value, int) && arg2.value.(int) == 0
+//@   at_call (*object).defineProperty : arg1 != "lastIndex" ==> arg3 == 0
+//@   at_call (*object).defineProperty : arg1 == "source" ==> arg2.kind == valueString && is(arg2.value, string) && arg2.value.(string) == pattern
+//@   at_call (*object).defineProperty : arg1 == "global" ==> arg2.kind == valueBoolean && is(arg2.value, bool) && arg2.value.(bool) == global
+//@   at_call (*object).defineProperty : arg1 == "ignoreCase" ==> arg2.kind == valueBoolean && is(arg2.value, bool) && arg2.value.(bool) == ignoreCase
+//@   at_call (*object).defineProperty : arg1 == "multiline" ==> arg2.kind == valueBoolean && is(arg2.value, bool) && arg2.value.(bool) == multiline
+//@   at_call (*object).defineProperty : arg1 == "global" ==> o.class == "RegExp" && is(o.value, regExpObject) && o.value.(regExpObject).source == pattern && o.value.(regExpObject).flags == flags && o.value.(regExpObject).global == global && o.value.(regExpObject).ignoreCase == ignoreCase && o.value.(regExpObject).multiline == multiline
+//@   calls (*object).defineProperty(_, "lastIndex", _, _, _)
+//@   calls (*object).defineProperty(_, "source", _, _, _)
+//@   calls (*object).defineProperty(_, "global", _, _, _)
+//@   calls (*object).defineProperty(_, "ignoreCase", _, _, _)
+//@   calls (*object).defineProperty(_, "multiline", _, _, _)
+//@ func (*runtime).newRegExpDirect
+//@   props C10 C14
+//@   nosafety
+//@   requires rt != nil
+//@   calls (*runtime).newRegExpObject(_, _, _) as o
+//@   at_call (*runtime).newRegExpObject : arg0 == rt && arg1 == pattern && arg2 == flags
+//@   ensures called(o) && result == o && result.prototype == rt.global.RegExpPrototype
+
+// 15.10.3.1 RegExp(pattern, flags) called as a function returns pattern itself when it is a
+// RegExp object and flags is undefined; 15.10.4.1: constructing from a RegExp object with
+// flags given is a TypeError, otherwise its source and flags are taken over.
+//@ func builtinRegExp
+//@   props C10
+//@   requires wfCall(call) && argOK(call, 0) && argOK(call, 1) && call.runtime != nil
+//@   stable call.ArgumentList
+//@   nocall (*runtime).newRegExp(_, _, _) when argOf(call, 0).kind == valueObject && is(argOf(call, 0).value, *object) && argOf(call, 0).value.(*object) != nil && argOf(call, 0).value.(*object).class == "RegExp" && argOf(call, 1).kind == valueUndefined
+//@   at_call (*runtime).newRegExp : arg1 == argOf(call, 0) && arg2 == argOf(call, 1)
+//@   ensures old(argOf(call, 0).kind == valueObject && is(argOf(call, 0).value, *object) && argOf(call, 0).value.(*object) != nil && argOf(call, 0).value.(*object).class == "RegExp" && argOf(call, 1).kind == valueUndefined) ==> result == old(argOf(call, 0))
+//@ func (*runtime).newRegExp
+//@   props C10 C19
+//@   nosafety
+//@   requires rt != nil && jsValue(patternValue) && jsValue(flagsValue)
+//@   at_call (*runtime).panicTypeError : patternValue.kind == valueObject && flagsValue.kind != valueUndefined
+//@   at_call (*runtime).newRegExpDirect : arg0 == rt && (patternValue.kind == valueUndefined ==> arg1 == "") && (flagsValue.kind == valueUndefined && patternValue.kind != valueObject ==> arg2 == "") && (patternValue.kind == valueString && is(patternValue.value, string) ==> arg1 == patternValue.value.(string)) && (flagsValue.kind == valueString && is(flagsValue.value, string) && patternValue.kind != valueObject ==> arg2 == flagsValue.value.(string))
+//@   calls (*runtime).newRegExpDirect(_, _, _) as o
+//@   ensures called(o) && result == o
+
+// 15.10.6.2 steps 14-21: the result array of a match holds the whole match and one slot per
+// capture (undefined for a group that did not participate), and carries index (in UTF-16
+// code units) and input as ordinary data properties.
+//@ spec matchPairs(r []int, n int) bool = len(r) >= 2 && len(r) % 2 == 0 && 0 <= r[0] && r[0] <= r[1] && r[1] <= n &&
+//@+  (forall i int :: 0 <= i && i < len(r) / 2 ==> r[2*i] == -1 || (0 <= r[2*i] && r[2*i] <= r[2*i+1] && r[2*i+1] <= n))
+//@ func execResultToArray
+//@   props C10
+//@   safety C02 C10
+//@   requires rt != nil && matchPairs(result, len(target))
+//@   stable result
+//@   invariant@1 0 <= index && index < captureCount && captureCount == len(result) / 2 && len(valueArray) == captureCount && fresh(valueArray)
+//@   at_call (*runtime).newArrayOf : len(arg1) == len(result) / 2
+//@   at_call (*object).defineProperty : arg0 == match && arg3 == 0o111 && !arg4 && (arg1 == "input" || arg1 == "index")
+//@   at_call (*object).defineProperty : arg1 == "input" ==> arg2.kind == valueString && is(arg2.value, string) && arg2.value.(string) == target
+//@   at_call (*object).defineProperty : arg1 == "index" ==> arg2.kind == valueNumber && is(arg2.value, int) && (result[0] == 0 ==> arg2.value.(int) == 0) && (result[0] != 0 ==> arg2.value.(int) == utf16Length(target[:result[0]]))
+//@   calls (*object).defineProperty(_, "input", _, _, _)
+//@   calls (*object).defineProperty(_, "index", _, _, _)
+
+// 15.10.6.2 exec / 15.10.6.3 test: the matcher is run on ToString(string) with the this
+// object; exec yields null on failure and the result array otherwise.
+//@ func builtinRegExpExec
+//@   props C10
+//@   nosafety
+//@   requires wfCall(call) && argsOK(call.ArgumentList) && call.runtime != nil
+//@   stable call.ArgumentList
+//@   calls execRegExp(_, _) as m
+//@   at_call execRegExp : arg0 == thisObject && arg1 == target
+//@   at_call execResultToArray : called(m) && m_0 && arg1 == target && arg2 == m_1
+//@   ensures called(m) && (!m_0 ==> result.kind == valueNull)
+
+// ---------------------------------------------------------------------------
+// builtin_number.go, value_string.go, value_number.go: Number entry points (15.7) (C06)
+// ---------------------------------------------------------------------------
+
+// 15.7.1.1 Number(value): +0 without arguments, ToNumber(value) otherwise.
+//@ func numberValueFromNumberArgumentList
+//@   props C06
+//@   safety C02 C06
+//@   requires len(argumentList) > 0 ==> jsValue(argumentList[0])
+//@   calls (Value).numberValue(_) as n when len(argumentList) > 0
+//@   at_call (Value).numberValue : arg0 == argumentList[0]
+//@   ensures len(argumentList) == 0 ==> result.kind == valueNumber && is(result.value, int) && result.value.(int) == 0
+//@   ensures len(argumentList) > 0 ==> result == n
+//@ func builtinNumber
+//@   props C06
+//@   requires len(call.ArgumentList) > 0 ==> jsValue(call.ArgumentList[0])
+//@   calls numberValueFromNumberArgumentList(call.ArgumentList) as r
+//@   ensures called(r) && result == r
+//@ func builtinNumberValueOf
+//@   props C06
+//@   requires call.runtime != nil
+//@   at_call (*FunctionCall).thisClassObject : arg1 == "Number"
+//@   calls (*object).primitiveValue(_) as r
+//@   ensures called(r) && result == r
+
+// Number.prototype.toString(radix) for radix != 10: NaN, the infinities and zero have their
+// fixed spellings; anything else is handed to the integer formatter in that radix.
+//@ func numberToStringRadix
+//@   props C06
+//@   requires jsValue(value) && isGoNumber(value) && 2 <= radix && radix <= 36
+//@   at_call strconv.FormatInt : arg1 == radix && !isNaN(numOf(value)) && !isInf(numOf(value)) && numOf(value) != 0.0
+//@   ensures isNaN(numOf(value)) ==> result == "NaN"
+//@   ensures isInf(numOf(value)) && numOf(value) > 0.0 ==> result == "Infinity"
+//@   ensures isInf(numOf(value)) && numOf(value) < 0.0 ==> result == "-Infinity"
+//@   ensures numOf(value) == 0.0 ==> result == "0"
+
+// The sign of a comparison function's result (15.4.4.11): NaN counts as 0.
+//@ func toIntSign
+//@   props C08 C06
+//@   requires jsValue(value)
+//@   ensures result == -1 || result == 0 || result == 1
+//@   ensures isGoNumber(value) && isNaN(numOf(value)) ==> result == 0
+//@   ensures isGoNumber(value) && numOf(value) > 0.0 ==> result == 1
+//@   ensures isGoNumber(value) && numOf(value) < 0.0 ==> result == -1
+//@   ensures isGoNumber(value) && numOf(value) == 0.0 ==> result == 0
+
+// 15.4.4.4 concat: an array item contributes its elements 0 .. len-1, each read with
+// [[HasProperty]] then [[Get]], a missing element staying missing; any other item is
+// appended as it is.
+//@ func builtinArrayConcat
+//@   props C08
+//@   nosafety
+//@   requires wfCall(call) && argsOK(call.ArgumentList) && call.runtime != nil
+//@   stable call.ArgumentList
+//@   calls (*object).hasProperty(_, _) as h whenret false
+//@   invariant@2 index > 0 ==> called(h) && len(valueArray) > 0
+//@   invariant@2 index > 0 && !h ==> valueArray[len(valueArray)-1].kind == valueEmpty
+//@   at_call (*object).hasProperty : arg0 == obj && arg1 == name
+//@   at_call (*object).get @2 : arg0 == obj && arg1 == name && called(h) && h
+//@   at_call strconv.FormatInt : arg0 == index && arg1 == 10
